@@ -454,3 +454,25 @@ def _writer_scenario(n: int, app_mode: int, f: int, sq: bool) -> bool:
     if [e.sequence for e in stored] != list(range(n)):
         return False
     return [e.event.value.get("i") for e in stored] == list(range(n))
+
+
+# ----------------------------------------------------------------------------------------------- repeated payloads
+@obligation(quick=90, thorough=200, partitions_quick=["not sq", "sq"], partitions_thorough=["not sq", "sq"],
+            what="a run that publishes the SAME payload several times (a progress ping, a repeated token): every append is one stored event — "
+                 "n appends with payloads drawn from {0, 1} give sequences 0..n-1 carrying exactly the appended payloads, on both backends",
+            bounds={"appends": "1..4", "payload of each append": "0 or 1 (adjacent duplicates in most sequences)", "store": "memory / sqlite"})
+def ob_repeated_payloads_each_stored(n: int, p0: bool, p1: bool, p2: bool, p3: bool, sq: bool) -> bool:
+    """
+    pre: 1 <= n <= 4
+    post: _
+    """
+    n = pick_int(n, 1, 4)
+    ps = [1 if p else 0 for p in (p0, p1, p2, p3)][:n]
+    sq = True if sq else False
+    with _untraced():
+        with TmpDir() as d:
+            st = SqliteWorkflowStore(os.path.join(d, "s.db")) if sq else MemoryWorkflowStore()
+            for p in ps:
+                drive(st.append_event("a", env_plain(p)))
+            evs = drive(st.query_events("a"))
+            return [e.sequence for e in evs] == list(range(n)) and [e.event.value.get("i") for e in evs] == ps
